@@ -445,7 +445,8 @@ theorem actsOk_of_kindsTotal {cfg : PCfg} (h0 : cfg.failAt = 0) (hk : kindsTotal
   · simp only [Option.getD_some, Bool.or_eq_true, Bool.and_eq_true, beq_iff_eq, bne_iff_ne,
       ne_eq] at this
     simp only [kindOk]
-    rcases this with (rfl | rfl) | ⟨rfl | rfl, hn0⟩
+    rcases this with ((rfl | rfl) | rfl) | ⟨rfl | rfl, hn0⟩
+    · exact ⟨_, rfl⟩
     · exact ⟨_, rfl⟩
     · exact ⟨_, rfl⟩
     · rcases X with _ | ⟨x, X⟩
